@@ -42,6 +42,16 @@ void m4lint_ctl_C1(mzd_t *M) {
   }
 }
 
+/* MV1: a data mover that adds the source to whatever its destination held */
+void m4lint_ctl_MV1(mzd_t *C, mzd_t const *B) {
+  for (rci_t i = 0; i < B->nrows; ++i) {
+    for (rci_t j = 0; j < B->ncols; j += m4ri_radix) {
+      int const n = MIN(m4ri_radix, B->ncols - j);
+      mzd_xor_bits(C, i, j, n, mzd_read_bits(B, i, j, n));
+    }
+  }
+}
+
 /* S1: row pointer of B advanced by A's rowstride */
 word m4lint_ctl_S1(mzd_t const *A, mzd_t const *B) {
   word const *b = mzd_row_const(B, 0);
